@@ -104,13 +104,18 @@ def gen_fn_job(ch, jid, label, allow_stale_docs=False):
             if p["default"] is not None and p["default"].get("v") is not None and p["name"] in documented and ch.chance("%s.an%d" % (label, i), 0.5):
                 val = p["default"]["v"]
                 txt = ('"%s"' % val) if isinstance(val, str) else repr(val)
+                if ch.chance("%s.fold%d" % (label, i), 0.3):
+                    # letters whose case-folded form is longer than the letter (sharp s, dotted capital I, a ligature)
+                    p["doc"] = ch.choice("%s.foldw%d" % (label, i), ["Gr\u00f6\u00dfe des Puffers", "Ma\u00dfstab, \u0130stanbul", "con\ufb01gured size"]) + ", " + p["doc"]
                 p["doc"] = p["doc"] + ". " + ch.choice("%s.ph%d" % (label, i), phrases) % txt
+                p["announces_same"] = True
                 if ch.chance("%s.two%d" % (label, i), 0.5):
                     # a second, *different* phrasing announcing another value (which one counts must not depend on the process)
                     first = [ph for ph in phrases if (ph % txt) in p["doc"]][0]
                     other = ch.choice("%s.ph2%d" % (label, i), [ph for ph in phrases if ph.lower() != first.lower()])
                     alt = {"int": "7", "float": "0.75", "bool": "True", "str": '"other"'}.get(type(val).__name__, "7")
                     p["doc"] += ". In legacy mode " + other[0].lower() + other[1:] % alt
+                    p["announces_same"] = False
                 p["doc_announces_default"] = True
     add_computed_default(ch, label, desc)
     extra_documented = []
@@ -125,6 +130,7 @@ def gen_fn_job(ch, jid, label, allow_stale_docs=False):
     truth = {"names": names + ([desc["kwargs"]] if desc.get("kwargs") else []),
              "documented": documented, "style": {"google_hanging": "google", "rest_compact": "rest"}.get(style, style), "layout": style, "inline": inline, "ftype": ftype, "kwonly": kwonly,
              "params": {p["name"]: {"typ": p["typ"], "doc": p["doc"], "default": p["default"], "announces": bool(p.get("doc_announces_default")),
+                                     "announces_same": bool(p.get("announces_same")) and isinstance((p["default"] or {}).get("v"), (int, float)) and not isinstance((p["default"] or {}).get("v"), bool),
                                      "computed": bool(p.get("computed"))} for p in desc["params"]}}
     return {"id": jid, "kind": "parse_function", "src": src, "name": fname, "truth": truth,
             "inmem": ch.chance(label + ".inmem", 0.12)}
@@ -332,6 +338,15 @@ def gen_gen_job(ch, jid, label):
             "imports": ch.choice(label + ".imports", [None, "import os\nfrom typing import Optional\n", "import sys\n\ntry:\n    import json\nexcept ImportError:\n    json = None\n"])}
 
 
+def gen_sp_eval_job(ch, jid, label):
+    """sync_properties --input-eval: the input module is *executed*.  It may succeed, or fail while being evaluated (an import
+    that is not installed, a missing data file) - either way the process must be left as it was."""
+    fails = ch.choice(label + ".fails", [None, None, "import package_that_is_not_installed_%d" % jid, "raise RuntimeError('no data file')"])
+    inp = "%sCHOICES = ('p', 'q', 'r')\n" % ((fails + "\n") if fails else "")
+    outp = "from typing import Literal\n\n\ndef target_fn(kind: str = 'p', keep: int = 1):\n    return keep\n"
+    return {"id": jid, "kind": "sp_eval", "input": inp, "output": outp, "fails": bool(fails)}
+
+
 def gen_wrap_job(ch, jid, label):
     """C18: a description whose summary / prose / types are shorter than, about equal to and much longer than typical widths."""
     n = ch.int(label + ".n", 1, 4)
@@ -398,7 +413,7 @@ def gen_corpus(seed, prop, n):
         elif prop == "C18":
             kind = "wrap"
         else:
-            kind = ch.weighted(lab, [("fn", 5), ("cls", 2), ("hop", 2), ("hopgroup", 1.2), ("doc", 1), ("sync", 1), ("baddoc", 0.6), ("plaindoc", 1.5), ("gen", 0.8), ("fntwins", 0.6)])
+            kind = ch.weighted(lab, [("fn", 5), ("cls", 2), ("hop", 2), ("hopgroup", 1.2), ("doc", 1), ("sync", 1), ("baddoc", 0.6), ("plaindoc", 1.5), ("gen", 0.8), ("fntwins", 0.6), ("speval", 0.5)])
         if kind == "fn":
             jobs.append(gen_fn_job(ch, i, lab, allow_stale_docs=(prop == "C12")))
         elif kind == "fntwins":
@@ -419,6 +434,8 @@ def gen_corpus(seed, prop, n):
             jobs.append(gen_sync_job(ch, i, lab))
         elif kind == "gen":
             jobs.append(gen_gen_job(ch, i, lab))
+        elif kind == "speval":
+            jobs.append(gen_sp_eval_job(ch, i, lab))
         else:
             jobs.append(gen_wrap_job(ch, i, lab))
     return jobs
@@ -533,6 +550,12 @@ def c07_check_function(job, ir, sig_names, sig_params, live=False):
                                  "parsed_placeholder": d in (None, "None", "```None```", "```(None)```"),
                                  # the signature's default is a string that itself starts and ends with one and the same quote character
                                  "sig_default_in_quotes": True if isinstance(sp["default"], str) and len(sp["default"]) >= 2 and sp["default"][0] == sp["default"][-1] and sp["default"][0] in "'\"" else None}))
+        tp = t["params"].get(n) or {}
+        if sp["has_default"] and tp.get("announces") and tp.get("announces_same") and n in t["documented"]:
+            # the prose announces exactly the signature's (numeric) default, once: whichever source wins, the value is that one
+            d = p.get("default")
+            if not (isinstance(d, (int, float)) and not isinstance(d, bool) and d == sp["default"]):
+                out.append(("3-default-announced", "%s: docstring and signature both say %r, parsed default is %r" % (n, sp["default"], d), {"style": t["style"]}))
         if not sp["has_default"] and "default" in p and p["default"] not in (None, "None", "```None```", "```(None)```") and not (t["params"].get(n) or {}).get("announces"):
             out.append(("3-default-invented", "%s: Python sees a required parameter, the parsed interface gives it the default %r" % (n, p["default"]),
                         {"documented": _docmode(t), "style": t["style"], "announce_in_doc": any(x.get("announces") for x in t["params"].values()),
@@ -622,6 +645,8 @@ class Replica(object):
     def run(self):
         jobs = {j["id"]: j for j in self.task["jobs"]}
         timeouts = 0
+        if self.task["prop"] == "C12":
+            self._proc_state = (os.getcwd(), sorted(os.environ.items()))
         for jid in self.task["schedule"]:
             if timeouts >= 2:
                 break  # two hangs are evidence enough; do not spend the budget on more
@@ -641,6 +666,17 @@ class Replica(object):
                 res = {"exception": "%s: %s" % (type(e).__name__, re.sub(r"0x[0-9a-fA-F]+", "0x?", str(e))[:200])}
             finally:
                 signal.alarm(0)
+            # what a conversion leaves behind in the *process* (not in doctrans' own modules): the working directory and the
+            # environment are inputs of every later conversion that names a file by a relative path or reads a setting
+            if self.task["prop"] == "C12":
+                now = (os.getcwd(), sorted(os.environ.items()))
+                if not hasattr(self, "_proc_state"):
+                    self._proc_state = now
+                elif now != self._proc_state:
+                    what = "working directory" if now[0] != self._proc_state[0] else "environment"
+                    self.add_violation("C12", job, "P-process-state-left-behind", "job %d (%s) changed the %s of the process: later conversions that use relative paths / settings depend on it" % (
+                        jid, job["kind"], what), {"what": what})
+                    os.chdir(self._proc_state[0])
             payload = core.canon(res)
             self.results.append([jid, occ, hashlib.sha256(payload.encode()).hexdigest()[:20], payload if self.task.get("want_payload") else None])
         return {"results": self.results, "violations": self.violations, "probe": self.probe()}
@@ -707,6 +743,23 @@ class Replica(object):
             return self.wrap_job(job)
         if k == "gen":
             return self.gen_job(job, occ)
+        if k == "sp_eval":
+            d = os.path.join(self.tmpdir(), "speval_%d_%d" % (job["id"], occ), "lab")
+            os.makedirs(d, exist_ok=True)
+            with open(os.path.join(d, "labels.py"), "wt") as f:
+                f.write(job["input"])
+            with open(os.path.join(d, "model.py"), "wt") as f:
+                f.write(job["output"])
+            try:
+                self.ns.sp.sync_properties(input_eval=True, input_filename=os.path.join(d, "labels.py"), input_params=["CHOICES"],
+                                           output_filename=os.path.join(d, "model.py"), output_params=["target_fn.kind"])
+                status = "ok"
+            except BaseException as e:  # the evaluated module may raise anything
+                if isinstance(e, (KeyboardInterrupt, JobTimeout)):
+                    raise
+                status = "raised %s" % type(e).__name__
+            with open(os.path.join(d, "model.py"), "rt") as f:
+                return {"status": status, "output": f.read()}
         raise HarnessError("unknown job kind %r" % k)
 
     def add_violation(self, prop, job, clause, detail, extra):
